@@ -33,6 +33,7 @@ use crate::common::{
 use crate::error::{M2Error, Result};
 use crate::file_resolver::FileResolver;
 use crate::header::{M2_MAGIC_CHUNKED, M2_MAGIC_LEGACY, M2Header, M2ModelFlags};
+use crate::skin::SkinSubmesh;
 use crate::version::M2Version;
 
 /// M2 format variants
@@ -2340,6 +2341,30 @@ fn collect_embedded_skin_data<R: Read + Seek>(
     }
 
     Ok(embedded_skins)
+}
+
+/// Re-encodes the raw submesh records of an embedded skin profile for another version
+///
+/// Submesh records take 32 bytes before version 260 and 48 bytes from 260 on. The fields are
+/// mapped the way [`SkinSubmesh`] reads and writes the two record layouts.
+fn convert_embedded_submeshes(
+    submeshes: &[u8],
+    source_version: u32,
+    target_version: u32,
+) -> Result<Vec<u8>> {
+    let source_size = if source_version < 260 { 32 } else { 48 };
+    let mut converted = Vec::new();
+
+    for mut record in submeshes.chunks_exact(source_size) {
+        let submesh = SkinSubmesh::parse_with_version(&mut record, source_version)?;
+        if target_version < 260 {
+            submesh.write_vanilla(&mut converted)?;
+        } else {
+            submesh.write(&mut converted)?;
+        }
+    }
+
+    Ok(converted)
 }
 
 impl M2Format {
@@ -5310,6 +5335,23 @@ impl M2Model {
         new_model.textures = textures;
         new_model.bones = bones;
         new_model.materials = materials;
+
+        // Embedded skin profiles (versions up to 263) carry their submeshes as raw records
+        // whose size depends on the version: 32 bytes before 260, 48 bytes from 260 on
+        let source_header_version = self.header.version;
+        let target_header_version = new_model.header.version;
+        if source_header_version <= 263
+            && target_header_version <= 263
+            && (source_header_version < 260) != (target_header_version < 260)
+        {
+            for skin in &mut new_model.raw_data.embedded_skins {
+                skin.submeshes = convert_embedded_submeshes(
+                    &skin.submeshes,
+                    source_header_version,
+                    target_header_version,
+                )?;
+            }
+        }
 
         // Chunked format fields are preserved for compatibility
         // They will be None for legacy format conversions
